@@ -5,7 +5,7 @@
 (*   <= 2 exceptions (period from a catalogue of date / date-range /       *)
 (*   week-n-day / calendar-reference periods that are in force on D1, D2,  *)
 (*   both or neither; priority from Prios; <= 2 time-values on ExcSlots    *)
-(*   with values {1, 2, NULL}), <= 2 weekly entries on WkSlots, a set of   *)
+(*   with values {1, 2, NULL}), <= 2 weekly entries (WkLists), a set of    *)
 (*   effective periods that contain both days, end after D1, begin on D2   *)
 (*   or have an open start.                                                *)
 (* For every member: the function obligations on every Grid instant of     *)
@@ -18,8 +18,9 @@
 EXTENDS Schedule, SequencesExt, Json
 
 CONSTANTS D1, D2,           \* the two adjacent dates
-          Prios, ExcSlots, WkSlots, PeriodIds, EffIds, Starts,
-          Grid,             \* grid step in hundredths of a second
+          Prios, ExcSlots, WkLists, PeriodIds, EffIds, Starts,
+          Grid,             \* grid step (hundredths of a second) of the printed vectors and the literal obligations
+          CGrid,            \* grid step of the obligations evaluated on every member
           SampleMod, SampleSeed     \* a member is printed iff its index hash is 0 modulo SampleMod
 
 VARIABLES ph, i1, i2, w, k, fresh
@@ -56,7 +57,7 @@ TVL(slots) ==
     \cup {<< <<q[1], v1>>, <<q[2], v2>> >> : q \in {r \in slots \X slots : r[1] < r[2]}, v1 \in Vals \cup {NULL}, v2 \in Vals \cup {NULL}}
 
 ExcSeq == SetToSeq([period : {Period(n) : n \in PeriodIds}, prio : Prios, tvs : TVL(ExcSlots)])
-WkSeq == SetToSeq(TVL(WkSlots))
+WkSeq == SetToSeq(WkLists)
 EffSeq == SetToSeq({Eff(n) : n \in EffIds})
 NE == Len(ExcSeq)
 
@@ -75,9 +76,10 @@ Root ==
 
 Pick ==
     /\ ph = 1 /\ ph' = 2
-    /\ i2' \in (IF i1 = 0 THEN {0} ELSE 0..NE) /\ w' \in 1..Len(WkSeq) /\ k' \in 1..Len(EffSeq)
-    /\ fresh' = TRUE /\ UNCHANGED i1
-    /\ \E st \in Starts : now' = <<D1, st>> /\ pv' = Show(Cfg', now', PV0) /\ deadline' = Arm(Cfg', now')
+    /\ i2' \in (IF i1 = 0 THEN {0} ELSE {0} \cup i1..NE)      \* unordered pairs: the order matters only among equal
+    /\ w' \in 1..Len(WkSeq) /\ k' \in 1..Len(EffSeq)          \* priorities, which the property leaves open
+    /\ UNCHANGED i1
+    /\ \E st \in Starts : fresh' = (st = MinOf(Starts)) /\ now' = <<D1, st>> /\ pv' = Show(Cfg', now', PV0) /\ deadline' = Arm(Cfg', now')
 
 Run ==
     /\ ph = 2 /\ DayNo(now[1]) <= DayNo(D2)
@@ -95,12 +97,14 @@ At(g) == (g - 1) * Grid
 \*   \A g < h : At(h) < N[g] => V[h] = V[g]
 \* is equivalent to: every instant before a change point h (V[h] # V[h-1]) has its next change at or before h
 \* (if V[h'] # V[g] for some h' in g's window then some change point lies in (g, h'], hence inside the window).
+CG == Midnight \div CGrid
+CAt(g) == (g - 1) * CGrid
 DayOK(cfg, date) ==
     LET plan == Plan(cfg, date)
-        V == TLCEval([g \in 1..G |-> ValueP(cfg, plan, At(g))])        \* TLCEval: tabulate once
-        N == TLCEval([g \in 1..G |-> NextChangeP(cfg, plan, At(g))])
-    IN  /\ \A g \in 1..G : V[g] # NULL /\ (V[g] = NOVAL <=> ~InPeriod(cfg, date)) /\ At(g) < N[g] /\ N[g] <= Midnight
-        /\ \A h \in 2..G : V[h] # V[h - 1] => \A g \in 1..(h - 1) : N[g] <= At(h)
+        V == TLCEval([g \in 1..CG |-> ValueP(cfg, plan, CAt(g))])        \* TLCEval: tabulate once
+        N == TLCEval([g \in 1..CG |-> NextChangeP(cfg, plan, CAt(g))])
+    IN  /\ \A g \in 1..CG : V[g] # NULL /\ (V[g] = NOVAL <=> ~InPeriod(cfg, date)) /\ CAt(g) < N[g] /\ N[g] <= Midnight
+        /\ \A h \in 2..CG : V[h] # V[h - 1] => \A g \in 1..(h - 1) : N[g] <= CAt(h)
 
 \* the same in its literal form, plus exactness of ExactNext and LooseNext <= NextChange <= ExactNext (sampled members only)
 DayOKLiteral(cfg, date) ==
